@@ -74,11 +74,30 @@ func (e *Engine) unitsFor(prop string, only string) []string {
 			keys = append(keys, k)
 		}
 	}
+	if prop == "C11" && only == "" {
+		have := map[string]bool{}
+		for _, k := range keys {
+			have[k] = true
+		}
+		for _, k := range e.guardedFunctions() {
+			if have[k] {
+				continue
+			}
+			if c, ok := e.specs.Contracts[k]; ok && (c.Trusted || c.Inline) {
+				continue
+			}
+			if _, ok := e.specs.Contracts[k]; !ok {
+				// functions without a contract are checked for the lock discipline only
+				e.specs.Contracts[k] = &Contract{Key: k, Props: []string{"C11"}, NoCrash: true, Modifies: []*ModEntry{{Kind: "all", Src: "*"}}, Loops: map[int]*LoopSpec{}, Where: "implicit (guard rules)", Implicit: true}
+			}
+			keys = append(keys, k)
+		}
+	}
 	return keys
 }
 
 func clausesMention(c *Contract, p string) bool {
-	for _, cl := range append(append(append([]*Clause{}, c.Requires...), c.Ensures...), c.Exsures...) {
+	for _, cl := range append(append(append(append([]*Clause{}, c.Requires...), c.Ensures...), c.Exsures...), c.Checks...) {
 		if hasProp(cl.Props, p) {
 			return true
 		}
